@@ -85,12 +85,11 @@ func NarrowSends(p *load.Program, run *report.Run) {
 		got[s.fn.Name()] = s.why == ""
 	}
 	info, fdBad, err1 := parseExampleFunc(narrowSendExample, "SendUint16Bad")
-	_, fdGood, err2 := parseExampleFunc(narrowSendExample, "SendUint16")
+	info2, fdGood, err2 := parseExampleFunc(narrowSendExample, "SendUint16")
 	if err1 != nil || err2 != nil {
 		run.Undecided(rule, "built-in example", "", "example does not parse")
 		return
 	}
-	info2, _, _ := parseExampleFunc(narrowSendExample, "SendUint16")
 	if len(got) != 4 || got["runsUnbounded"] || !got["runsCapped"] || !got["fixed"] || got["byLength"] || rangeCheckRejects(info, fdBad, 16) == "" || rangeCheckRejects(info2, fdGood, 16) != "" {
 		run.Undecided(rule, "built-in example", "", fmt.Sprintf("the rule misclassifies its built-in example: %v", got))
 		return
